@@ -3,7 +3,7 @@ import sys, os, json
 sys.path.insert(0, os.path.dirname(os.path.abspath(__file__)))
 from common import *
 
-ELIOT = {"C01", "C02", "C03", "C04", "C05", "C07", "C08", "C12", "C13"}
+ELIOT = {"C01", "C02", "C03", "C04", "C05", "C06", "C07", "C08", "C12", "C13"}
 
 
 def main(argv):
